@@ -1188,6 +1188,12 @@ func cleanFlagConditions(fcs *[]FlagCondition) bool {
 		SubQueries []string
 		forbidden  []uint64
 	}
+	// only bits selected by one of the masks can influence the result,
+	// all values are enumerated within these bits only
+	usedBits := uint16(0)
+	for _, fc := range *fcs {
+		usedBits |= fc.Mask
+	}
 	infos := []forbiddenFlagValues(nil)
 next_fc:
 	for _, fc := range *fcs {
@@ -1204,12 +1210,12 @@ next_fc:
 			}
 			continue
 		}
-		forbidden := make([]uint64, 0x10000/64)
-		for v := uint16(0); ; v++ {
+		forbidden := make([]uint64, usedBits/64+1)
+		for v := usedBits; ; v = (v - 1) & usedBits {
 			if v&fc.Mask == fc.Value {
 				forbidden[v/64] |= 1 << (v % 64)
 			}
-			if v == math.MaxUint16 {
+			if v == 0 {
 				break
 			}
 		}
@@ -1238,7 +1244,11 @@ next_fc:
 		mask := uint16(0)
 		for bit := 0; bit < 16; bit++ {
 			m := uint16(1 << bit)
-			for v := ^m; ; v = (v - 1) & ^m {
+			if usedBits&m == 0 {
+				continue
+			}
+			others := usedBits &^ m
+			for v := others; ; v = (v - 1) & others {
 				f1 := 1 & (info.forbidden[v/64] >> (v % 64))
 				f2 := 1 & (info.forbidden[(v^m)/64] >> ((v ^ m) % 64))
 				if f1 != f2 {
